@@ -213,7 +213,7 @@ def ob_engine(name, make, tier, label, unit_heights=False):
 
         def rbody(v):
             g = lambda val: round(float(val) * GRID) / GRID       # the witness on the decimals grid
-            sp = regeng.spec_literal({k: val for k, val in spec.items() if k in ("name", "description", "inputs", "outputs", "blocks")}, lit, lambda x: g(v[rev[id(x)]]))
+            sp = regeng.spec_literal({k: val for k, val in spec.items() if k in ("name", "description", "inputs", "outputs", "blocks", "share_components")}, lit, lambda x: g(v[rev[id(x)]]))
             wl = "{" + ", ".join(f"{k!r}: {lit(g(v[rev[id(w)]]) if id(w) in rev else w)}" for k, w in spec.get("weights", {}).items()) + "}"
             return "\n".join([regeng.PY_BUILD, PY_COMPARE, f"spec = {sp}", f"weights = {wl}", "import warnings; warnings.simplefilter('ignore')",
                               "e = build_engine(spec, weights)", "bad = []",
@@ -235,7 +235,7 @@ def ob_engine(name, make, tier, label, unit_heights=False):
             S.tokens.clear()
             S.token_of.clear()
             with inst.shadow(fl.rule, float=sym_float_builtin):
-                e = build({k: val for k, val in spec.items() if k in ("name", "description", "inputs", "outputs", "blocks")}, spec.get("weights"))
+                e = build({k: val for k, val in spec.items() if k in ("name", "description", "inputs", "outputs", "blocks", "share_components")}, spec.get("weights"))
                 t1 = fl.FllExporter().to_string(e)
                 e2 = fl.FllImporter().from_string(t1)
                 t2 = fl.FllExporter().to_string(e2)
